@@ -30,6 +30,26 @@ from .engine import ParserEngine
 from .state import _AT_
 
 
+class _DeferredScope:
+    """collects the functions of an expression and parses when the scope ends"""
+
+    # NOTE: not a generator-based context manager: a StopIteration raised by a
+    #   semantic action in code that runs after the yield would come out of it
+    #   as a RuntimeError
+
+    def __init__(self, cl: Any, finish: Any):
+        self.cl = cl
+        self.finish = finish
+
+    def __enter__(self) -> Any:
+        return self.cl
+
+    def __exit__(self, exctype: Any, exc: Any, tb: Any) -> bool:
+        if exctype is None:
+            self.finish(self.cl)
+        return False
+
+
 class _ChoiceScope:
     def __init__(self, ctx: Any):
         self.ctx = ctx
@@ -381,17 +401,17 @@ class ParseContext(ParserEngine):
 
     _positive_closure = positive_closure
 
-    @contextmanager
     def loopopt(self) -> Any:
-        cl = LoopContext(self)
-        yield cl
-        self.closure(cl.func, omitsep=False)
+        return _DeferredScope(
+            LoopContext(self),
+            lambda cl: self.closure(cl.func, omitsep=False),
+        )
 
-    @contextmanager
     def loopplus(self) -> Any:
-        cl = LoopContext(self, plus=True)
-        yield cl
-        self.positive_closure(cl.func, omitsep=False)
+        return _DeferredScope(
+            LoopContext(self, plus=True),
+            lambda cl: self.positive_closure(cl.func, omitsep=False),
+        )
 
     def empty(self) -> list:
         cst = closedlist([])
@@ -401,17 +421,17 @@ class ParseContext(ParserEngine):
     def _empty_closure(self) -> list:
         return self.empty()
 
-    @contextmanager
     def gatheropt(self) -> Any:
-        cl = LoopWithSepContext(self, plus=False, omitsep=True)
-        yield cl
-        self.gather(cl.func, cl.sep_func)
+        return _DeferredScope(
+            LoopWithSepContext(self, plus=False, omitsep=True),
+            lambda cl: self.gather(cl.func, cl.sep_func),
+        )
 
-    @contextmanager
     def gatherplus(self) -> Any:
-        cl = LoopWithSepContext(self, plus=True, omitsep=True)
-        yield cl
-        self.positive_gather(cl.func, cl.sep_func)
+        return _DeferredScope(
+            LoopWithSepContext(self, plus=True, omitsep=True),
+            lambda cl: self.positive_gather(cl.func, cl.sep_func),
+        )
 
     def gather(self, exp: Func, sep: Func) -> Any:
         return self.closure(exp, sep=sep, omitsep=True)
@@ -423,17 +443,17 @@ class ParseContext(ParserEngine):
 
     _positive_gather = positive_gather
 
-    @contextmanager
     def joinopt(self) -> Any:
-        cl = ExpWithSepContext(self)
-        yield cl
-        self.join(cl.func, cl.sep_func)
+        return _DeferredScope(
+            ExpWithSepContext(self),
+            lambda cl: self.join(cl.func, cl.sep_func),
+        )
 
-    @contextmanager
     def joinplus(self) -> Any:
-        cl = ExpWithSepContext(self)
-        yield cl
-        self.positive_join(cl.func, cl.sep_func)
+        return _DeferredScope(
+            ExpWithSepContext(self),
+            lambda cl: self.positive_join(cl.func, cl.sep_func),
+        )
 
     def join(self, exp: Func, sep: Func) -> Any:
         return self.closure(exp, sep=sep, omitsep=False)
@@ -445,17 +465,17 @@ class ParseContext(ParserEngine):
 
     _positive_join = positive_join
 
-    @contextmanager
     def joinleft(self) -> Any:
-        cl = ExpWithSepContext(self)
-        yield cl
-        self.left_join(cl.func, cl.sep_func)
+        return _DeferredScope(
+            ExpWithSepContext(self),
+            lambda cl: self.left_join(cl.func, cl.sep_func),
+        )
 
-    @contextmanager
     def joinright(self) -> Any:
-        cl = ExpWithSepContext(self)
-        yield cl
-        self._right_join(cl.func, cl.sep_func)
+        return _DeferredScope(
+            ExpWithSepContext(self),
+            lambda cl: self._right_join(cl.func, cl.sep_func),
+        )
 
     def left_join(self, exp: Func, sep: Func) -> Any:
         self.cst = left_assoc(self.positive_join(exp, sep))
@@ -486,11 +506,11 @@ class ParseContext(ParserEngine):
 
     _dot = dot
 
-    @contextmanager
     def skipto(self) -> Any:
-        cl = ExpContext(self)
-        yield cl
-        self.skip_to(cl.func)
+        return _DeferredScope(
+            ExpContext(self),
+            lambda cl: self.skip_to(cl.func),
+        )
 
     _skipto = skipto
 
